@@ -1,3 +1,4 @@
+import collections.abc
 import inspect
 from typing import Generator, Any, Dict, Iterable, Iterator, TypeVar
 
@@ -79,10 +80,11 @@ class GeneratorWrapper:
     def _set_and_check_return_types(self, expected_return_type: Any) -> Any:
         base_generic = get_base_generic(cls=expected_return_type)
 
-        if base_generic not in [Generator, Iterable, Iterator]:
+        if base_generic not in [Generator, Iterable, Iterator,
+                                collections.abc.Generator, collections.abc.Iterable, collections.abc.Iterator]:
             raise PedanticTypeCheckException(
                 f'{self._err}Generator should have type annotation "typing.Generator[]", "typing.Iterator[]" or '
-                f'"typing.Iterable[]". Got "{expected_return_type}" instead.')
+                f'"typing.Iterable[]" (or their collections.abc counterparts). Got "{expected_return_type}" instead.')
 
         result = get_type_arguments(expected_return_type)
 
